@@ -183,10 +183,13 @@ class _Quadrature(torch.autograd.Function):
             xl, xu = ctx.xlxu_nontensor
 
         # calculate the gradient for the boundaries
-        grad_xl = -torch.dot(grad_ys.reshape(-1), fcn(xl, *params).reshape(-1)
-                             ).reshape(xl.shape) if ctx.xltensor else None
-        grad_xu = torch.dot(grad_ys.reshape(-1), fcn(xu, *params).reshape(-1)
-                            ).reshape(xu.shape) if ctx.xutensor else None
+        # (with the object's parameters of the forward call, the object might
+        # hold other tensors by now)
+        with fcn.useobjparams(allparams[nparams:]):
+            grad_xl = -torch.dot(grad_ys.reshape(-1), fcn(xl, *params).reshape(-1)
+                                 ).reshape(xl.shape) if ctx.xltensor else None
+            grad_xu = torch.dot(grad_ys.reshape(-1), fcn(xu, *params).reshape(-1)
+                                ).reshape(xu.shape) if ctx.xutensor else None
 
         def new_fcn(x, *grad_y_params):
             grad_ys = grad_y_params[0]
